@@ -13,6 +13,10 @@
 (* it was when the appender opened it.  A successor appender opened on the    *)
 (* same path while this one is alive (a reconfiguration) therefore is the     *)
 (* same `disk`; the recorded traces contain such successors.                  *)
+(* Appenders on different files are different instances of this module: an    *)
+(* append to one of them from inside the encode call of another (same thread, *)
+(* the first one's lock held) is an append like any other - the traces make   *)
+(* such appends to an audit appender and check its file at the end.           *)
 (***************************************************************************)
 EXTENDS Integers, Sequences, FiniteSets, TLC
 CONSTANTS Threads,      \* thread ids: positive integers (0 is "nobody" / pre-existing)
